@@ -265,6 +265,12 @@ package vers
 //@   ensures forward: result1 == nil ==> (forall k int :: forall t int :: 0 <= k && k < len(ivs(constraints)) && 0 <= t && t < len(rangeTexts(e.Name(), ivs(constraints)[k])) && rangeTexts(e.Name(), ivs(constraints)[k])[t] != "" ==> (exists m int :: 0 <= m && m < len(result0) && result0[m] == e.NewVersionRange(rangeTexts(e.Name(), ivs(constraints)[k])[t]).0))   [C04] using fwd
 //@   ensures parse-error: parseConstraints(constraints).1 != nil ==> result1 != nil   [C04]
 
+// the white-space literal handed to strings.Map in normalizeConstraints: white space is dropped (-1), every other rune kept
+// (what strings.Map does with it - drop the runes mapped to a negative value - is the documented library behaviour, assumed)
+//@ func normalizeConstraints$1
+//@   ensures drops-space: unicode.IsSpace(r) ==> result == -1   [C16]
+//@   ensures keeps-rest: !unicode.IsSpace(r) ==> result == r   [C16]
+
 // the comparison literal handed to slices.SortFunc in normalizeConstraints: stars first, then by version
 //@ func normalizeConstraints$2
 //@   ensures result == (a.constraint == "*" ? (b.constraint == "*" ? 0 : -1) : (b.constraint == "*" ? 1 : a.version.Compare(b.version)))   [C16]
